@@ -57,6 +57,9 @@ pub struct Hist {
     /// one common site for all aircraft, airborne reports within 15 NM of it carry altitudes below 1000 ft, and the
     /// decoder is asked to move the receiver reference to such fixes (what decode1090 always does)
     pub lowalt: bool,
+    /// the scenario is laid out around `reference`, but the decoder is not told any receiver position: surface
+    /// reports can then only be decoded next to the aircraft's own recent fix, or not at all
+    pub hide_ref: bool,
 }
 
 #[derive(Clone, Debug)]
@@ -74,6 +77,8 @@ pub struct Report {
     pub alt_ft: i32,
     /// 0 = none; otherwise a non-position message of the same aircraft is delivered right after this report
     pub filler: u8,
+    /// this entry is not a position report at all: only its filler message is delivered (traffic during a gap)
+    pub only_filler: bool,
 }
 
 pub const NO_ALT: i32 = i32::MIN;
@@ -227,7 +232,7 @@ fn fly(p: &Plan, ac: usize, reference: Option<(f64, f64)>) -> Vec<Report> {
             _ => 5_000 + 25 * ((ob2 as i32 * 29 + ob as i32 * 3) % 1_800),
         };
         let filler = if ob2 % 4 == 0 { 1 + (ob2 >> 2) % 8 } else { 0 };
-        out.push(Report { ac, icao: p.icao, ts, arrival: ts, lat, lon, surface: *surface, odd, df18: p.df18, alt_ft, filler });
+        out.push(Report { ac, icao: p.icao, ts, arrival: ts, lat, lon, surface: *surface, odd, df18: p.df18, alt_ft, filler, only_filler: false });
     }
     out
 }
@@ -250,6 +255,26 @@ pub fn build(h: &Hist) -> Vec<Report> {
             p
         };
         let mut base = fly(p, ac, h.reference);
+        // other messages of the aircraft keep arriving while its position reports are missing: in every gap longer
+        // than 9 s, up to three non-position messages (2 s after the gap starts, in the middle, 2 s before it ends)
+        if p.ops.get(3).map(|b| b % 3 != 0).unwrap_or(false) {
+            let mut extra = vec![];
+            for w in base.windows(2) {
+                let (a, b) = (&w[0], &w[1]);
+                if b.ts - a.ts > 9.0 {
+                    for (k, t) in [a.ts + 2.0, (a.ts + b.ts) / 2.0, b.ts - 2.0].into_iter().enumerate() {
+                        let mut f = a.clone();
+                        f.ts = t;
+                        f.arrival = t;
+                        f.only_filler = true;
+                        f.filler = 1 + ((a.filler as usize + k) % 8) as u8;
+                        extra.push(f);
+                    }
+                }
+            }
+            base.extend(extra);
+            base.sort_by(|x, y| x.ts.partial_cmp(&y.ts).unwrap());
+        }
         if let Some(site) = lowalt_site {
             for r in base.iter_mut() {
                 if !r.surface && r.alt_ft != NO_ALT && haversine_m(site.0, site.1, r.lat, r.lon) < 15.0 * NM {
@@ -258,10 +283,17 @@ pub fn build(h: &Hist) -> Vec<Report> {
             }
         }
         let mut mine: Vec<Report> = vec![];
+        // parity-selective loss: for a stretch of 8-67 consecutive reports every report of one parity is lost
+        // (the other parity keeps arriving), in a third of the plans
+        let sel = p.ops.get(4).copied().unwrap_or(1);
+        let (win_from, win_len) = if sel % 3 == 0 && !base.is_empty() { (p.ops.get(5).copied().unwrap_or(0) as usize % base.len(), 8 + (p.ops.get(6).copied().unwrap_or(0) % 60) as usize) } else { (0, 0) };
         for (i, r) in base.iter().enumerate() {
             let op = p.ops.get((i * 7 + 3) % p.ops.len().max(1)).copied().unwrap_or(0);
             let drop_p = [0u8, 2, 6, 9][(p.drop_level & 3) as usize];
             if (op % 10) < drop_p && i > 0 {
+                continue;
+            }
+            if i >= win_from && i < win_from + win_len && !r.only_filler && r.odd == (sel & 0x10 != 0) {
                 continue;
             }
             mine.push(r.clone());
@@ -363,15 +395,17 @@ pub struct Fed {
 fn to_timed(reports: &[Report]) -> Result<Fed, String> {
     let mut fed = Fed { msgs: vec![], src: vec![] };
     for (i, r) in reports.iter().enumerate() {
-        let frame = frame_of(r);
-        let msg = Message::try_from(frame.as_slice()).map_err(|e| format!("frame {} rejected: {e}", hex::encode(&frame)))?;
-        fed.msgs.push(TimedMessage { timestamp: r.ts, frame, message: Some(msg), metadata: vec![], decode_time: None });
-        fed.src.push(Some(i));
+        if !r.only_filler {
+            let frame = frame_of(r);
+            let msg = Message::try_from(frame.as_slice()).map_err(|e| format!("frame {} rejected: {e}", hex::encode(&frame)))?;
+            fed.msgs.push(TimedMessage { timestamp: r.ts, frame, message: Some(msg), metadata: vec![], decode_time: None });
+            fed.src.push(Some(i));
+        }
         if r.filler != 0 {
             let frame = filler_of(r);
             // a filler the decoder does not accept is simply not part of the stream
             if let Ok(msg) = Message::try_from(frame.as_slice()) {
-                fed.msgs.push(TimedMessage { timestamp: r.ts + 0.05, frame, message: Some(msg), metadata: vec![], decode_time: None });
+                fed.msgs.push(TimedMessage { timestamp: r.ts + if r.only_filler { 0.0 } else { 0.05 }, frame, message: Some(msg), metadata: vec![], decode_time: None });
                 fed.src.push(None);
             }
         }
@@ -412,8 +446,9 @@ pub struct Stats {
 pub fn replay_json(h: &Hist, reports: &[Report]) -> Value {
     json!({
         "kind": "history",
-        "reference": h.reference.map(|r| vec![r.0, r.1]),
-        "reports": reports.iter().map(|r| json!({"ac": r.ac, "icao": format!("{:06x}", r.icao), "ts": r.ts, "lat": r.lat, "lon": r.lon, "surface": r.surface, "odd": r.odd, "df18": r.df18, "alt_ft": if r.alt_ft == NO_ALT { Value::Null } else { json!(r.alt_ft) }, "filler": r.filler, "frame": hex::encode(frame_of(r))})).collect::<Vec<_>>(),
+        "reference": given_ref(h).map(|r| vec![r.0, r.1]),
+        "layout_reference": h.reference.map(|r| vec![r.0, r.1]),
+        "reports": reports.iter().map(|r| json!({"ac": r.ac, "icao": format!("{:06x}", r.icao), "ts": r.ts, "lat": r.lat, "lon": r.lon, "surface": r.surface, "odd": r.odd, "df18": r.df18, "alt_ft": if r.alt_ft == NO_ALT { Value::Null } else { json!(r.alt_ft) }, "filler": r.filler, "only_filler": r.only_filler, "frame": hex::encode(if r.only_filler { filler_of(r) } else { frame_of(r) })})).collect::<Vec<_>>(),
         "lowalt": h.lowalt,
     })
 }
@@ -458,7 +493,7 @@ pub fn check_reports(ctx: &Ctx, st: &Stats, reference: Option<(f64, f64)>, lowal
             }
         }
     }
-    st.reports.fetch_add(reports.len() as u64, Ordering::Relaxed);
+    st.reports.fetch_add(reports.iter().filter(|r| !r.only_filler).count() as u64, Ordering::Relaxed);
     st.positioned.fetch_add(npos, Ordering::Relaxed);
     st.fillers.fetch_add(merged.src.iter().filter(|s| s.is_none()).count() as u64, Ordering::Relaxed);
     // non-interference (stated for a fixed receiver reference): each aircraft alone gives bit-identical results
@@ -483,7 +518,7 @@ pub fn check_reports(ctx: &Ctx, st: &Stats, reference: Option<(f64, f64)>, lowal
     if npos > 0 {
         let mut straddle = false;
         for ac in 0..nac {
-            let ts: Vec<f64> = reports.iter().filter(|r| r.ac == ac).map(|r| r.ts).collect();
+            let ts: Vec<f64> = reports.iter().filter(|r| r.ac == ac && !r.only_filler).map(|r| r.ts).collect();
             straddle |= ts.windows(2).any(|w| (w[1] - w[0]).abs() > 9.0);
         }
         if straddle || nac > 1 {
@@ -532,7 +567,7 @@ pub fn check_cli(ctx: &Ctx, bin: &str, h: &Hist) -> Check {
     let reports = build(h);
     let mut rep = replay_json(h, &reports);
     rep["via"] = json!("decode1090");
-    check_cli_reports(ctx, bin, h.reference, h.lowalt, &reports, &rep)
+    check_cli_reports(ctx, bin, given_ref(h), h.lowalt, &reports, &rep)
 }
 
 fn scratch_file(tag: &str) -> std::path::PathBuf {
@@ -595,7 +630,7 @@ pub fn check_py(ctx: &Ctx, py: &PyEnv, h: &Hist) -> Check {
     let reports = build(h);
     let mut rep = replay_json(h, &reports);
     rep["via"] = json!("python");
-    check_py_reports(ctx, py, h.reference, &reports, &rep)
+    check_py_reports(ctx, py, given_ref(h), &reports, &rep)
 }
 
 pub struct PyEnv {
@@ -663,10 +698,19 @@ pub fn check_py_reports(ctx: &Ctx, py: &PyEnv, reference: Option<(f64, f64)>, re
     Ok(())
 }
 
+/// the receiver position the decoder is given
+pub fn given_ref(h: &Hist) -> Option<(f64, f64)> {
+    if h.hide_ref {
+        None
+    } else {
+        h.reference
+    }
+}
+
 pub fn check_hist(ctx: &Ctx, st: &Stats, h: &Hist) -> Check {
     let reports = build(h);
     let rep = replay_json(h, &reports);
-    check_reports(ctx, st, h.reference, h.lowalt, &reports, &rep)
+    check_reports(ctx, st, given_ref(h), h.lowalt, &reports, &rep)
 }
 
 // ------------------------------------------------------------- strategies
@@ -728,20 +772,31 @@ fn hist(surface: bool) -> BoxedStrategy<Hist> {
                         p.lat = p.lat.clamp(-85.0, 85.0);
                     }
                 }
-                Hist { reference: Some((r.lat.clamp(-80.0, 80.0), r.lon)), plans, lowalt: false }
+                Hist { reference: Some((r.lat.clamp(-80.0, 80.0), r.lon)), plans, lowalt: false, hide_ref: false }
             })
             .boxed()
     } else {
         (proptest::option::of(point()), proptest::collection::vec(plan(prop_oneof![4 => Just(0u8), 1 => Just(4u8)]), 1..=4))
             .prop_map(|(r, mut plans)| {
                 assign_addresses(&mut plans);
-                Hist { reference: r.map(|r| (r.lat, r.lon)), plans, lowalt: false }
+                Hist { reference: r.map(|r| (r.lat, r.lon)), plans, lowalt: false, hide_ref: false }
             })
             .boxed()
     }
 }
 
 /// Surface scenarios around one common site, with low-altitude fixes that move the receiver reference.
+/// Surface scenarios in which the decoder is given no receiver position.
+fn hist_hidden() -> BoxedStrategy<Hist> {
+    (hist(true), any::<bool>())
+        .prop_map(|(mut h, low)| {
+            h.hide_ref = true;
+            h.lowalt = low;
+            h
+        })
+        .boxed()
+}
+
 fn hist_lowalt() -> BoxedStrategy<Hist> {
     hist(true)
         .prop_map(|mut h| {
@@ -759,7 +814,7 @@ fn classes(ctx: &Ctx, what: &str, h: &Hist) {
 }
 
 pub fn run(ctx: &Ctx) {
-    ctx.set_rule("histories: 1-4 aircraft, each a plan (start from the C04 strata incl. flights along the 87th parallel, bearing, speed in {0,140,450,700, uniform 0-700} kt, 1-6 segments of 1-29 reports every 0.4-0.6 s separated by gaps from {9.5, 9.99, 10.01, 10.5, 12, 20, 30, 60, 170, 179.9, 180.1, 190, 470, 600, 1000, 1700, 1790, 1860, 2000, 7200 s}, mostly alternating parity, loss levels 0/20/60/90 %, duplicate receptions +<=0.3 s, neighbours delivered in swapped order across any gap (truthful timestamps) or with exchanged timestamps when < 1.5 s apart, DF17 (any capability) or DF18 (any control field) carriers, every airborne (9-18, 20-22) and surface (5-8) type code, altitudes unavailable / 25 ft / Gillham coded, any movement / track / status bits, a quarter of the reports followed by a non-position message of the same aircraft (velocity, identification, status, operational status, target state, type code 0, DF11, DF4), addresses independent or from one family differing in a few bits / byte order); the airborne alias family 'gap just long enough to fly k latitude / m longitude zones (+-40 km) at <= 690 kt, then airborne again'; surface scenarios add landings, take-offs and the adversarial 'last airborne fix exactly k surface zones away, long gap, then surface' family, with a receiver reference within 36 NM of every surface site and |lat| <= 80; 'low altitude' scenarios put every aircraft on one common site, give airborne reports within 15 NM of it altitudes below 1000 ft and let the decoder move the receiver reference to such fixes (as decode1090 always does). Frames from the independent encoder through Message::try_from and decode_positions; and as a JSONL file through the real decode1090 binary (its own loop around decode_position) and, split into chunks, through the Python binding's decode_1090t_vec (positions within 25 m and equal to the library's). Oracle: every attached position within 25 m of the encoded one; per-aircraft outputs bit-identical with and without the other aircraft (fixed reference). Non-trivial = history with >= 1 positioned report and (a gap > 9 s or >= 2 aircraft); distinct by hash of the report list.");
+    ctx.set_rule("histories: 1-4 aircraft, each a plan (start from the C04 strata incl. flights along the 87th parallel, bearing, speed in {0,140,450,700, uniform 0-700} kt, 1-6 segments of 1-29 reports every 0.4-0.6 s separated by gaps from {9.5, 9.99, 10.01, 10.5, 12, 20, 30, 60, 170, 179.9, 180.1, 190, 470, 600, 1000, 1700, 1790, 1860, 2000, 7200 s}, mostly alternating parity, loss levels 0/20/60/90 %, duplicate receptions +<=0.3 s, neighbours delivered in swapped order across any gap (truthful timestamps) or with exchanged timestamps when < 1.5 s apart, DF17 (any capability) or DF18 (any control field) carriers, every airborne (9-18, 20-22) and surface (5-8) type code, altitudes unavailable / 25 ft / Gillham coded, any movement / track / status bits, a quarter of the reports followed by a non-position message of the same aircraft (velocity, identification, status, operational status, target state, type code 0, DF11, DF4) and such messages also arriving during gaps, parity-selective loss (8-67 consecutive reports lose every report of one parity), addresses independent or from one family differing in a few bits / byte order); the airborne alias family 'gap just long enough to fly k latitude / m longitude zones (+-40 km) at <= 690 kt, then airborne again'; surface scenarios add landings, take-offs and the adversarial 'last airborne fix exactly k surface zones away, long gap, then surface' family, with a receiver reference within 36 NM of every surface site and |lat| <= 80; 'hidden reference' scenarios are surface scenarios in which the decoder is given no receiver position at all; 'low altitude' scenarios put every aircraft on one common site, give airborne reports within 15 NM of it altitudes below 1000 ft and let the decoder move the receiver reference to such fixes (as decode1090 always does). Frames from the independent encoder through Message::try_from and decode_positions; and as a JSONL file through the real decode1090 binary (its own loop around decode_position) and, split into chunks, through the Python binding's decode_1090t_vec (positions within 25 m and equal to the library's). Oracle: every attached position within 25 m of the encoded one; per-aircraft outputs bit-identical with and without the other aircraft (fixed reference). Non-trivial = history with >= 1 positioned report and (a gap > 9 s or >= 2 aircraft); distinct by hash of the report list.");
     ctx.assume("speeds <= 700 kt along great circles (rhumb lines along the 87th parallel); receiver reference fixed (update_reference = None) except in the 'low altitude' scenarios, where every fix that can move it lies within 15 NM of the one site all surface traffic is on");
     ctx.assume("surface aircraft are stationary during gaps, so the 40 NM premise of the property stays true");
     let st = Stats { reports: AtomicU64::new(0), positioned: AtomicU64::new(0), surface_positioned: AtomicU64::new(0), reference_moves: AtomicU64::new(0), fillers: AtomicU64::new(0) };
@@ -780,13 +835,17 @@ pub fn run(ctx: &Ctx) {
             classes(ctx, "low altitude (moving reference)", h);
             check_hist(ctx, &st, h)
         });
+        run_prop(ctx, &format!("hidden-{s}"), n_low / shards, hist_hidden(), |h| {
+            classes(ctx, "surface traffic, no receiver position given", h);
+            check_hist(ctx, &st, h)
+        });
     });
     // the decode1090 binary has its own loop around decode_position (anchor crates/decode1090/src/main.rs)
     match std::env::var("DECODE1090_BIN") {
         Ok(bin) => {
             let n_cli = ctx.tier.pick(320u32, 6_400u32);
             (0..shards).into_par_iter().for_each(|s| {
-                run_prop(ctx, &format!("cli-{s}"), n_cli / shards, prop_oneof![2 => hist(false), 2 => hist(true), 1 => hist_lowalt()], |h| {
+                run_prop(ctx, &format!("cli-{s}"), n_cli / shards, prop_oneof![2 => hist(false), 2 => hist(true), 1 => hist_lowalt(), 1 => hist_hidden()], |h| {
                     ctx.class(if h.lowalt { "low-altitude history through the real decode1090 binary" } else { "history through the real decode1090 binary" });
                     check_cli(ctx, &bin, h)
                 });
@@ -802,7 +861,7 @@ pub fn run(ctx: &Ctx) {
         Some(py) => {
             let n_py = ctx.tier.pick(192u32, 3_200u32);
             (0..shards).into_par_iter().for_each(|s| {
-                run_prop(ctx, &format!("py-{s}"), n_py / shards, prop_oneof![hist(false), hist(true)], |h| {
+                run_prop(ctx, &format!("py-{s}"), n_py / shards, prop_oneof![2 => hist(false), 2 => hist(true), 1 => hist_hidden()], |h| {
                     ctx.class("history through the Python binding (decode_1090t_vec)");
                     check_py(ctx, &py, h)
                 });
@@ -824,10 +883,11 @@ pub fn run(ctx: &Ctx) {
         reference: Some((2.1, 5.1)),
         plans: vec![Plan { icao: 0x4840d6, df18: false, kind: 3, lat: 0.0, lon: 0.0, bearing: 45.0, speed_kt: 60.0, rhumb: false, segs: vec![Seg { n: 6, period: 0.5, gap: 14 }, Seg { n: 4, period: 0.5, gap: 99 }], split: 1, ops: vec![0; 16], drop_level: 0, site_bearing: 10.0, site_nm: 5.0, alias_k: 1, alias_m: 0, jitter_m: (50.0, -30.0) }],
         lowalt: false,
+        hide_ref: false,
     };
     let reports = build(&h);
     ctx.sample(replay_json(&h, &reports));
-    ctx.judge(check_reports(ctx, &st, h.reference, h.lowalt, &reports, &replay_json(&h, &reports)));
+    ctx.judge(check_reports(ctx, &st, given_ref(&h), h.lowalt, &reports, &replay_json(&h, &reports)));
 }
 
 pub fn replay(ctx: &Ctx, v: &Value) {
@@ -853,6 +913,7 @@ pub fn replay(ctx: &Ctx, v: &Value) {
                         Some(x) => x.as_i64().map(|x| x as i32).unwrap_or(NO_ALT),
                     },
                     filler: r["filler"].as_u64().unwrap_or(0) as u8,
+                    only_filler: r["only_filler"].as_bool().unwrap_or(false),
                 })
                 .collect()
         })
